@@ -173,14 +173,15 @@ Definition span_shows (p m q msg out : str) : bool :=
 
 Definition no_lf (t : str) : Prop := existsb is_lf t = false.
 
-Definition span_render_ok (p m q : str) : Prop :=
+Definition span_render_ok (fx : bool) (p m q : str) : Prop :=
   forall msg, no_lf msg ->
-    exists out, render_span (p ++ m ++ q) (blen p, blen p + blen m) msg = Ok out /\
+    exists out, render_span fx (p ++ m ++ q) (blen p, blen p + blen m) msg = Ok out /\
                 span_shows p m q msg out = true.
 
 (* Known classes of the span rendering (findings C10-K1 .. C10-K4):
    K1 a lone CR before the start offset in its line, removed from the shown text;
-   K2 the text is visualised (span starts/ends with CR or LF) and a further line is shown: that
+   K2 (code as shipped only, fx = false; repaired by fixes/C10-1-continued-line-visualize.patch)
+      the text is visualised (span starts/ends with CR or LF) and a further line is shown: that
       line is emitted raw, with its CR/LF, which breaks the row layout;
    K3 the span ends right after a LF and text follows: the following line is shown, labelled with
       the number of the line before it;
@@ -188,11 +189,11 @@ Definition span_render_ok (p m q : str) : Prop :=
       marker is not under the reported column. *)
 Definition has_crlf (t : str) : bool := existsb is_crlf t.
 Definition ends_lf (m : str) : bool := match m with [] => false | c :: r => is_lf (last r c) end.
-Definition KnownClass_span (p m q : str) : bool :=
+Definition KnownClass_span (fx : bool) (p m q : str) : bool :=
   let s := p ++ m ++ q in
   let meet := lines_meeting s (blen p) (blen p + blen m) in
   (negb (span_vis m) && existsb (fun c => ceq c CR) (after_last_nl p))
-  || (span_vis m && match meet with
+  || (negb fx && span_vis m && match meet with
                     | r0 :: r1 :: rest =>
                       match slice s (fst (last rest r1)) (snd (last rest r1)) with
                       | Some l2 => has_crlf l2 | None => false end
